@@ -92,7 +92,7 @@ func smInit(init string) (*cors.Middleware, smRef, error) {
 	return m, smRef{cfg: "A"}, err
 }
 
-var smSuite, smSuiteFull []vlib.Req // the thinned suite (state-machine part) and the full one (diagnostics part)
+var smSuite, smSuiteRev, smSuiteFull []vlib.Req // the thinned suite (state-machine part) and the full one (diagnostics part)
 
 // smFresh builds a middleware directly for a reference state.
 func smFresh(r smRef) (*cors.Middleware, error) {
@@ -164,6 +164,15 @@ func smPrepare() {
 		}
 		smSuite = thin
 	}
+	// the suite is observed forwards and then backwards after every step: it begins (hence the backward pass ends)
+	// with preflights that pass the origin and method steps of A / B and ask, on one field line, for a header that
+	// neither allows. What such a request leaves behind in debug mode is the first thing asked again after SetDebug(false).
+	smSuite = append([]vlib.Req{
+		{Method: "OPTIONS", Hdr: map[string][]string{"Origin": {"https://a.example"}, "Access-Control-Request-Method": {"PUT"}, "Access-Control-Request-Headers": {"x-not-listed"}}},
+		{Method: "OPTIONS", Hdr: map[string][]string{"Origin": {"http://b.example:81"}, "Access-Control-Request-Method": {"DELETE"}, "Access-Control-Request-Headers": {"x-not-listed"}}},
+	}, smSuite...)
+	smSuiteRev = slices.Clone(smSuite)
+	slices.Reverse(smSuiteRev)
 	for _, cfg := range []string{"", "A", "B", "C", "D", "E"} {
 		for _, d := range []bool{false, true} {
 			if cfg == "" && d {
@@ -197,6 +206,12 @@ func c09Check(m *cors.Middleware, r smRef, after string) *vlib.Failure {
 	got := observe(m, smSuite)
 	if i := firstDiff(want, got); i >= 0 {
 		return vlib.Failf("after %s the middleware (reference state: config %q, debug %t) answers %s with %s, a middleware freshly built for that state answers %s", after, r.cfg, r.debug, smSuite[i], got[i], want[i])
+	}
+	back := observe(m, smSuiteRev)
+	for i := range back {
+		if j := len(want) - 1 - i; back[i] != want[j] {
+			return vlib.Failf("after %s, the suite having been served once already in this state, the middleware (reference state: config %q, debug %t) answers %s with %s, a middleware freshly built for that state answers %s", after, r.cfg, r.debug, smSuiteRev[i], back[i], want[j])
+		}
 	}
 	return nil
 }
